@@ -25,7 +25,7 @@ SCALE = 1024          # coefficient tokens handed to the Lean model: coef * SCAL
 SEG_LETTERS = set('CLOVFGJSbrkKxd')
 INV_OPC = {v: k for k, v in nlgen.OPC.items()}
 VARIADIC = ('sum', 'min', 'max')
-N_THEOREMS = 11
+N_THEOREMS = 25
 # vptr excluded: mp's CRTP base constructors downcast `this` before the derived object exists (flat/converter.h:51),
 # which UBSan's vptr check reports on every run; unrelated to this property
 SAN_FLAGS = ('-O1', '-g', '-fsanitize=address,undefined', '-fno-sanitize=vptr', '-fno-sanitize-recover=all')
@@ -667,14 +667,14 @@ def judge(ck, c, r, mline, stats, rng):
         elif exp[1] != cls[1]:
             ck.add_violation('reject:wrong-error-class', 'expected error class %s, implementation reported %s' % (exp[1], cls[1]), rep)
         stats['cmp'] += 1
-        if mline != impl_line:
+        if mline is not None and mline != impl_line:
             ck.add_violation('corr:outcome', 'Lean model says "%s", implementation "%s"' % (mline[:80], impl_line), dict(rep, correspondence='drv_c12 vs recsolver'), found_input=False)
         return impl_line
     d = Delivered(r['log'])
     echo = sol_objno(r['sol'])
     names_impl = [e['name'] for e in d.objs]
     # canonical implementation line (what can be compared textually with the model)
-    mparts = mline.split(' | ')
+    mparts = mline.split(' | ') if mline is not None else []
     mhead = mparts[0].split(' ') if mparts else []
     impl_head = 'ok echo=%s' % echo
     if exp[0] == 'err':
@@ -725,8 +725,10 @@ def judge(ck, c, r, mline, stats, rng):
     # ---- correspondence with the Lean model
     ok = True
     why = ''
-    if len(mhead) < 4 or mhead[0] != 'ok':
-        ok, why = False, 'model outcome "%s" vs delivered model' % mline[:60]
+    if mline is None:
+        pass
+    elif len(mhead) < 4 or mhead[0] != 'ok':
+        ok, why = False, 'model outcome "%s" vs delivered model' % str(mline)[:60]
     else:
         m_echo = int(mhead[1].split('=')[1])
         m_names = [int(t) for t in mhead[2].split('=')[1].split(',') if t]
@@ -840,10 +842,95 @@ def corpus_cases():
     return res
 
 
+INT_MAX, INT_MIN = 2147483647, -2147483648
+# which oracle signatures are failing inputs for the clause a generated-tie theorem is about
+OBLIGATION_ORACLE = {
+    'C12_gen_NeedObj': r'select:|run:abnormal', 'C12_gen_resulting_nobj': r'select:', 'C12_gen_resulting_obj_index': r'select:|run:abnormal',
+    'C12_gen_OnHeader_check': r'reject:', 'C12_gen_skel_OnHeader': r'reject:|select:|echo:',
+    'C12_gen_objno_specified': r'select:|reject:|echo:', 'C12_gen_is_objno_specified': r'reject:|select:', 'C12_gen_multiobj': r'select:',
+    'C12_gen_objno_used': r'echo:|name:', 'C12_gen_SetObjNo': r'reject:|select:', 'C12_gen_notify': r'echo:|name:',
+    'C12_gen_handler_overrides': r'select:|reject:|echo:', 'C12_gen_skel_builder_OnHeader': r'select:|echo:|name:',
+    'C12_gen_skel_obj_events': r'select:|echo:|name:',
+}
+
+
+def gen_crosscheck(ck, drv, trdir):
+    """every generated definition (MpVerif.Gen.ObjFilter, evaluated by drv_c12) against the compiled function
+    (harness/h_objfilter.cc, same named inputs) on a grid including the int boundaries"""
+    sig = json.load(open(os.path.join(trdir, 'objfilter_sig.json')))
+    hobj = ck.objects([os.path.join(VERIF, 'harness', 'h_objfilter.cc')], flags=('-O1', '-g', '-fno-access-control'), tag='h')
+    hexe = ck.link('h_objfilter', hobj + ck.libmp_objects(flags=('-O1', '-g')))
+    K = [-INT_MAX, -5, -1, 0, 1, 2, 3, 4, 6, 8, INT_MAX]           # objno() values (INT_MIN excluded: objno()-1 is UB)
+    IDX = [0, 1, 2, 3, 5, 7, INT_MAX]
+    NH = [-1, 0, 1, 2, 3, 5, INT_MAX]
+    RAW = [-INT_MAX, -7, -2, -1, 0, 1, 2, 5, INT_MAX]               # objno_ values (INT_MIN excluded: abs is UB)
+    B = [0, 1]
+    grids = {
+        'NeedObj': [dict(p_obj_index=i, v_multiobj=m, v_objno=k) for i in IDX for m in B for k in K],
+        'resulting_nobj': [dict(p_nobj_header=n, v_multiobj=m, v_objno=k) for n in NH for m in B for k in K + [INT_MIN]],
+        'resulting_obj_index': [dict(p_index=i, v_multiobj=m, v_objno=(i + 1 if i < INT_MAX else 1)) for i in IDX for m in B],
+        'objno_specified': [dict(f_objno_=r) for r in RAW],
+        'is_objno_specified': [dict(f_objno_=r) for r in RAW + [INT_MIN]],
+        'multiobj': [dict(f_multiobj_=m, f_objno_=r) for m in B for r in RAW + [INT_MIN]],
+        'objno_used': [dict(f_opts_read_=a, f_obj_added_=b, f_objno_=r) for a in B for b in B for r in RAW],
+        'SetObjNo': [dict(p_value=r) for r in RAW + [INT_MIN]],
+        'notify_obj_added': [dict()], 'notify_start_opts': [dict()], 'notify_end_opts': [dict()],
+        'handler_objno': [dict(f_objno_=r) for r in RAW],
+        'handler_multiobj': [dict(f_multiobj_=m, f_objno_=r) for m in B for r in RAW + [INT_MIN]],
+        'OnHeader_check': [dict(f_objno_=r, p_h_num_objs=n) for r in RAW for n in [0, 1, 2, 3, 6]],
+    }
+    hin, lin, meta = [], [], []
+    for fn, params in sig.items():
+        if fn not in grids:
+            ck.add_violation('gen:no-grid-for-%s' % fn, 'generated definition %s has no cross-check grid' % fn, {'function': fn, 'params': params}, found_input=False)
+            continue
+        for a in grids[fn]:
+            missing = [p for p in params if p not in a]
+            if missing:
+                ck.add_violation('gen:unknown-parameter', 'generated definition %s now depends on %s: the code reads something the model does not know' % (fn, missing),
+                                 {'function': fn, 'params': params}, found_input=False)
+                break
+            hin.append(fn + ' ' + ' '.join('%s=%d' % kv for kv in sorted(a.items())))
+            lin.append('F %s %s' % (fn, ' '.join(str(a[p]) for p in params)))
+            meta.append((fn, a))
+    for fn in grids:
+        if fn not in sig:
+            ck.add_violation('gen:missing-%s' % fn, 'definition %s was not generated' % fn, {'function': fn}, found_input=False)
+    ph = subprocess.run([hexe], input='\n'.join(hin) + '\n', capture_output=True, text=True)
+    pl = subprocess.run([drv], input='\n'.join(lin) + '\n', capture_output=True, text=True)
+    ho, lo = ph.stdout.split('\n'), pl.stdout.split('\n')
+    if ph.returncode != 0 or len(ho) < len(hin) or len(lo) < len(lin):
+        ck.add_violation('gen:harness-failed', 'h_objfilter rc=%s (%d/%d lines), drv_c12 %d/%d lines: %s' % (ph.returncode, len(ho), len(hin), len(lo), len(lin), ph.stderr[-300:]),
+                         {'stderr': ph.stderr[-1000:]}, found_input=False)
+        return
+    bad = {}
+    for (fn, a), h, l in zip(meta, ho, lo):
+        if h != l:
+            bad.setdefault(fn, []).append((a, h, l))
+    for fn, lst in bad.items():
+        a, h, l = lst[0]
+        ck.add_violation('gen:%s-differs' % fn, 'generated Lean definition %s%s = "%s" but the compiled function gives "%s" (%d grid points differ): translator/CSem no longer describe the code' % (fn, a, l, h, len(lst)),
+                         {'function': fn, 'inputs': a, 'compiled': h, 'generated': l, 'more': [str(t) for t in lst[1:5]], 'correspondence': 'drv_c12 F-lines vs harness/h_objfilter.cc'}, found_input=False)
+    ck.cov['generated_defs'] = len(sig)
+    ck.cov['generated_defs_grid_points'] = len(meta)
+    ck.log('%d generated definitions cross-checked with the compiled functions on %d grid points, %d differ' % (len(sig), len(meta), sum(len(v) for v in bad.values())))
+
+
 # ----------------------------------------------------------------------------- main
 def run(ck):
+    # 1. regenerate lean/MpVerif/Gen/ObjFilter.lean from the repository's source text (clang typed AST)
+    gen = os.path.join(LEAN, 'MpVerif', 'Gen', 'ObjFilter.lean')
+    trdir = os.path.join(BUILD, 'tr_c12')
+    rc, out, err = sh([sys.executable, os.path.join(VERIF, 'translators', 'gen_objfilter.py'), REPO, gen, trdir], timeout=600)
+    ck.log((out.strip() or err.strip())[-300:])
+    translator_ok = rc == 0
+    failing = []
+    # 2. proof obligations (selection theorems about the hand model + generated = hand model) and axiom audit
     proof_ok, failing = ck.proof_stage('MpVerif.C12.Props', 'MpVerif/C12/Props.lean', 'C12_',
-                                       ['MpVerif/C12/*.lean'], expect_min=N_THEOREMS)
+                                       ['MpVerif/C12/*.lean', 'MpVerif/Gen/ObjFilter.lean'], expect_min=N_THEOREMS)
+    if not translator_ok:
+        failing = ['translator: ' + (out + err).strip()[-400:]] + failing
+        proof_ok = False
     ck.log('proof stage: ok=%s failing=%s' % (proof_ok, failing[:8]))
     if ck.tier == 'thorough' and proof_ok:
         bad = ck.leanchecker(['MpVerif.C12.Props'])
@@ -851,8 +938,16 @@ def run(ck):
             failing += ['leanchecker rejected %s' % m for m in bad]
             proof_ok = False
     exe = recsolver.build(ck)
-    drv = ck.driver('drv_c12')
-    ck.log('recsolver and drv_c12 built')
+    try:
+        drv = ck.driver('drv_c12')
+    except Exception as e:          # e.g. the generated module no longer compiles
+        drv = None
+        failing.append('model driver does not build: %s' % str(e)[-300:])
+        proof_ok = False
+    ck.log('recsolver built, drv_c12 %s' % ('built' if drv else 'NOT built'))
+    # 3a. generated definitions vs the compiled functions on a grid
+    if drv and translator_ok:
+        gen_crosscheck(ck, drv, trdir)
     wdir = os.path.join(BUILD, 'c12', 'work-%d' % os.getpid())
     shutil.rmtree(wdir, ignore_errors=True)
     os.makedirs(wdir, exist_ok=True)
@@ -915,11 +1010,14 @@ def run(ck):
         aux = list(ex.map(lambda t: run_case(exe, wdir, t[2], 'x') if t[0] == 'reduced' else None, extra_runs))
     ck.log('implementation runs done')
     mlines_in = [FileView(c.text).model_line(c.optlist) for c in cases]
-    p = subprocess.run([drv], input='\n'.join(mlines_in) + '\n', capture_output=True, text=True)
-    mout = p.stdout.split('\n')
-    if p.returncode != 0 or len(mout) < len(cases):
-        ck.add_violation('corr:driver-failed', 'drv_c12 failed: rc=%s %s' % (p.returncode, p.stderr[-300:]), {'stderr': p.stderr[-1000:]}, found_input=False)
-        mout += ['bad-op'] * len(cases)
+    if drv:
+        p = subprocess.run([drv], input='\n'.join(mlines_in) + '\n', capture_output=True, text=True)
+        mout = p.stdout.split('\n')
+        if p.returncode != 0 or len(mout) < len(cases):
+            ck.add_violation('corr:driver-failed', 'drv_c12 failed: rc=%s %s' % (p.returncode, p.stderr[-300:]), {'stderr': p.stderr[-1000:]}, found_input=False)
+            mout += ['bad-op'] * len(cases)
+    else:
+        mout = [None] * len(cases)
     by_id = {}
     impl_lines = []
     for c, r, ml in zip(cases, results, mout):
@@ -976,11 +1074,22 @@ def run(ck):
                 ck.add_violation('memory:sanitized-run-differs', 'sanitized and plain builds disagree on the outcome class', c.replay_obj(), found_input=False)
         ck.cov['sanitized_runs'] = nsan
         ck.log('%d cases re-run under ASan/UBSan' % nsan)
-    # ---- proof obligations that no longer check
+    # ---- proof obligations that no longer check: if the search above produced a failing input for the clause the
+    #      theorem is about, the obligation is named in that violation; otherwise it is reported on its own
     if not proof_ok:
         for fdecl in failing:
-            ck.add_violation('obligation:%s' % fdecl.split(' ')[0], 'proof obligation no longer checks: %s' % fdecl,
-                             {'theorem': fdecl, 'module': 'MpVerif.C12.Props', 'searched': '%d implementation cases' % len(cases)}, found_input=False)
+            name = fdecl.split(' ')[0]
+            pat = OBLIGATION_ORACLE.get(name)
+            hit = None
+            if pat:
+                hit = next((v for v in ck.violations if v['found_input'] and re.match(pat, v['sig'])), None)
+            if hit is not None:
+                hit['replay'].setdefault('broken_obligations', []).append(name)
+                if 'proof obligation' not in hit['what']:
+                    hit['what'] += '  [proof obligation(s) that no longer check: see replay.broken_obligations]'
+                continue
+            ck.add_violation('obligation:%s' % name, 'proof obligation no longer checks: %s' % fdecl,
+                             {'theorem': fdecl, 'module': 'MpVerif.C12.Props', 'searched': '%d implementation cases, none violates the clause this theorem is about' % len(cases)}, found_input=False)
     ck.cov['evaluations'] = len(cases) + len([1 for t in extra_runs if t[0] == 'reduced'])
     ck.cov['traces_validated_against_impl'] = stats['cmp']
     distinct = len({(hashlib.sha1(c.text.encode()).hexdigest(), c.binary, tuple(c.optlist)) for c in cases})
